@@ -25,7 +25,7 @@ type Sink = Arc<dyn Fn(&'static str, Value) + Send + Sync>;
 type Gate = Arc<dyn Fn(&'static str, &Value) -> Option<BoxFuture<'static, ()>> + Send + Sync>;
 type BlockGate = Arc<dyn Fn(&'static str, &Value) + Send + Sync>;
 type SocketFactory =
-    Arc<dyn Fn(std::net::SocketAddr) -> Arc<dyn quinn::AsyncUdpSocket> + Send + Sync>;
+    Arc<dyn Fn(&std::net::UdpSocket) -> Option<Arc<dyn quinn::AsyncUdpSocket>> + Send + Sync>;
 
 static SINK: RwLock<Option<Sink>> = RwLock::new(None);
 static GATE: RwLock<Option<Gate>> = RwLock::new(None);
@@ -93,9 +93,9 @@ pub(crate) fn block_point(name: &'static str, fields: Value) {
     }
 }
 
-pub(crate) fn socket_for(addr: std::net::SocketAddr) -> Option<Arc<dyn quinn::AsyncUdpSocket>> {
+pub(crate) fn socket_for(socket: &std::net::UdpSocket) -> Option<Arc<dyn quinn::AsyncUdpSocket>> {
     let factory = SOCKET_FACTORY.read().unwrap().clone();
-    factory.map(|f| f(addr))
+    factory.and_then(|f| f(socket))
 }
 
 pub(crate) fn jitter(default: std::time::Duration) -> std::time::Duration {
